@@ -71,12 +71,14 @@ def rule_finish(ctx, f):
                       t["span"], detail="libflate::zlib::Encoder")
             fin = [x for x, tt in F.calls(b) if last_seg(F.callee_name(tt)) == "finish" and "libflate" in F.callee_name(tt)]
             rets = cfg.exits
-            ok = bool(fin) and all(cfg.all_paths_pass(bi, rets, set(fin)) for _ in [0])
+            # from the function's entry, not only from the construction: an early return (say, for empty input) hands out bytes that are
+            # not a zlib stream - the empty input, too, is encoded as a header, an empty final block and a checksum
+            ok = bool(fin) and cfg.all_paths_pass(bi, rets, set(fin)) and cfg.all_paths_pass(0, rets, set(fin))
             ctx.check(ok, "C16-TS", b["id"] + "#finish",
                       "a path from the encoder's construction to the return does not call finish(): the trailing blocks/checksum are never written",
                       t["span"], detail="finish() on every path to the return")
             ats = fl.origins(0, passthrough=PASS_LAST + ("into_result",))
-            from_fin = any(a[0] == "call" and last_seg(a[1]) == "finish" for a in ats)
+            from_fin = any(a[0] == "call" and last_seg(a[1]) == "finish" for a in ats) and not any(a[0] == "call" and last_seg(a[1]) not in ("finish", "into_result", "unwrap", "expect", "branch", "map_err", "ok") for a in ats)
             ctx.check(from_fin, "C16-TS", b["id"] + "#returns-finished",
                       "the returned buffer is not the one handed back by finish()", b["span"], detail="return value derives from finish().into_result()")
     ctx.floor("C16-TS", n, 1, "bodies constructing a libflate encoder")
